@@ -24,7 +24,7 @@ TS = "scale.TimeScale"
 
 def _ts_eval(ctx, hook=None):
     P = ctx.P
-    ev = new_eval(P, on_call=hook, inline_filter=lambda fn: fn.qual not in ("scale.dt2milli", "scale.milli2dt") and not fn.qual.startswith("scale.LinearScale."))
+    ev = new_eval(P, on_call=hook, opaque=["scale.dt2milli", "scale.milli2dt"], inline_filter=lambda fn: not fn.qual.startswith("scale.LinearScale."))
     st = ev.new_state(module="scale")
     s = Opaque("self", cls=P.cls(TS), kind="obj")
     st.heap[("self", "_linear")] = Opaque("LIN", cls=P.cls("scale.LinearScale"), kind="obj")
